@@ -457,6 +457,56 @@ fn main() {
             }
         }
     }
+    // the same drivers on a clone that lives on another thread (and is dropped there), and with
+    // the original finished through Termination::report() afterwards
+    for sc in all_scripts(&walpha, 2) {
+        for driver in 0..4 {
+            let desc = format!("{sc:?}");
+            let sh = script(&sc);
+            let mut p = PlainWrite(sh.clone());
+            let pr = drive_write(&mut p, driver);
+            let plain = (format!("{pr} report=ExitCode(unix_exit_status(0))"), log_of(&sh));
+            let sh2 = script(&sc);
+            let mock = catch(|| {
+                use std::process::Termination;
+                let u = {
+                    use unimock::mock::std::io::WriteMock;
+                    let (a, b) = (sh2.clone(), sh2.clone());
+                    Unimock::new((
+                        WriteMock::write
+                            .each_call(matching!(_))
+                            .answers_arc(Arc::new(move |_: &mut Unimock, buf: &[u8]| respond_write(&a, buf))),
+                        WriteMock::flush
+                            .each_call(matching!())
+                            .answers_arc(Arc::new(move |_: &mut Unimock| respond_flush(&b))),
+                    ))
+                };
+                let mut c = u.clone();
+                let r = std::thread::spawn(move || {
+                    let r = drive_write(&mut c, driver);
+                    drop(c);
+                    r
+                })
+                .join()
+                .map_err(payload_to_string);
+                // every clause is an each_call without count: report() succeeds iff both were hit
+                let mut orig = u;
+                // a provided method on the original itself (creates its internal helper clone)
+                let _ = orig.write_all(b"");
+                let _ = orig.write(b"");
+                let _ = orig.flush();
+                let code = orig.report();
+                format!("{} report={code:?}", r.unwrap_or_else(|e| format!("worker panicked: {e}")))
+            })
+            .map(|r| {
+                let mut log = log_of(&sh2);
+                // the two extra calls that make every clause count
+                log.truncate(log.len().saturating_sub(2));
+                (r, log)
+            });
+            t.compare(&format!("Write/driver{driver}/clone-on-thread+report"), &desc, mock, plain);
+        }
+    }
     // Read: payload chunks and errors through read_exact / read_to_end / read_to_string / read_vectored
     let ralpha = [
         Ans::Bytes(vec![]),
